@@ -162,7 +162,27 @@ def oracleSigC08Hold (rate : Nat) (expect : Option (List Byte)) (evs : List SigE
           some s!"StartOfMessage at sample {t} was carried by {carried} bursts before sample {a} but was held while the link layer read one burst for {((b - a) * 1000) / rate} ms (a maximum-length frame lasts about 4120 ms)"
         else none)
     | _ => none)
-  match late.orElse (fun _ => held) with
+  -- the same for a Searching interval: an honest prefix search lasts 21 bytes ≈ 0.32 s; 60 byte times without a
+  -- break means every re-synchronisation restarted the search (F9)
+  let stuck := (60 * 8 * rate * 100) / Gen.BAUD_CENTIHZ
+  let rec searchIntervals : List SigEv → List (Nat × Nat)
+    | [] => []
+    | .link a 'S' _ :: rest =>
+      match rest.findSome? (fun e => match e with | .link t2 _ _ => some t2 | _ => none) with
+      | some b => (a, b) :: searchIntervals rest
+      | none => searchIntervals rest
+    | _ :: rest => searchIntervals rest
+  let heldS := evs.findSome? (fun e =>
+    match e with
+    | .msg t (.som text _ _) =>
+      (searchIntervals evs).findSome? (fun (a, b) =>
+        let carried := (evs.filter (fun p => match p with
+          | .link tp 'B' bytes => tp ≤ a ∧ bytes.take text.length == text | _ => false)).length
+        if b - a > stuck ∧ b ≤ t + rate / 10 ∧ a < t ∧ carried ≥ 2 then
+          some s!"StartOfMessage at sample {t} was carried by {carried} bursts before sample {a} but was held while the link layer stayed in Searching for {((b - a) * 1000) / rate} ms [cause: every re-synchronisation restarts the 21-byte prefix search]"
+        else none)
+    | _ => none)
+  match (late.orElse (fun _ => held)).orElse (fun _ => heldS) with
   | some e => some e
   | none =>
     match expect with
@@ -257,18 +277,32 @@ def oracleSigC09 (rate : Nat) (evs : List SigEv) : Option String :=
     | .link t 'B' b => if b.length > Gen.MAX_BURST_LENGTH then some s!"burst of {b.length} bytes at sample {t} exceeds the maximum frame length" else none
     | _ => none)
   let lastT := (evs.map SigEv.time).foldl max 0
+  -- diagnosis of the one known way this happens (F9): the link layer stayed in Searching without a break
+  -- across the timeout (an honest prefix search lasts 21 bytes ≈ 0.32 s; 60 byte times are taken as "stuck")
+  let stuck := (60 * 8 * rate * 100) / Gen.BAUD_CENTIHZ
+  let rec searchSpans : List SigEv → List (Nat × Nat)
+    | [] => []
+    | .link a 'S' _ :: rest =>
+      let b := (rest.findSome? (fun e => match e with | .link t2 _ _ => some t2 | _ => none)).getD lastT
+      (a, b) :: searchSpans rest
+    | _ :: rest => searchSpans rest
+  let cause (p : Nat) : String :=
+    let deadline := p + Gen.MAX_MESSAGE_DURATION_SECS * rate
+    match (searchSpans evs).find? (fun (a, b) => a ≤ deadline ∧ deadline + 2 * rate ≤ b ∧ b - a > stuck) with
+    | some (a, b) => s!" [cause: link layer in Searching without a break for {(b - a) / rate} s across the timeout: every re-synchronisation restarts the 21-byte prefix search]"
+    | none => ""
   let rec go : List (Nat × OutMsg) → Option String
     | [] => none
     | (p, .som ..) :: rest =>
       let closing := rest.find? (fun q => match q.2 with | .eom => true | .som .. => true | .err => false)
       match closing with
       | some q => if q.1 > p + (Gen.MAX_MESSAGE_DURATION_SECS + 6) * rate then
-            some s!"StartOfMessage at sample {p} was closed only after {(q.1 - p) / rate} s"
+            some s!"StartOfMessage at sample {p} was closed only after {(q.1 - p) / rate} s{cause p}"
           else go rest
       | none =>
         -- only a violation if the audio went on long enough for the timeout
         if lastT > p + (Gen.MAX_MESSAGE_DURATION_SECS + 6) * rate then
-          some s!"StartOfMessage at sample {p} was never followed by an EndOfMessage although the audio continued for {(lastT - p) / rate} s"
+          some s!"StartOfMessage at sample {p} was never followed by an EndOfMessage although the audio continued for {(lastT - p) / rate} s{cause p}"
         else go rest
     | _ :: rest => go rest
   match tooLong with
